@@ -122,6 +122,20 @@ def rule_setitem(ctx):
         if ok:
             ctx.holds('R1', inst)
             ctx.holds('R2', 'index resolution shared with reads: ' + inst)
+    # the copy that is written into must be the whole array: values, axes, metadata *and* the per-instance indexing mode (an array created while indexing.by was
+    # 'position' keeps resolving indices by position; a copy that falls back to the current option would write other cells than a[idx] reads)
+    cp = ctx.fn(CLS + 'copy')
+    evc = run(ctx, cp, bind={'shallow': T.CONST_FALSE})
+    for p in ret_paths(evc):
+        v = p.value
+        whole = v[0] == 'call' and T.dotted(v[1]) in ('copy.deepcopy', 'deepcopy') and v[2][:1] == (SELF,)
+        carried = v[0] == 'call' and all(T.kw(v, k) in (('attr', SELF, k), ('call', ('attr', ('name', 'copy'), 'deepcopy'), (('attr', SELF, k),), ())) for k in ('_indexing', '_indexing_broadcast'))
+        if whole or carried:
+            ctx.holds('R1', 'DimArray.copy(): the whole object is copied (per-instance indexing mode included)')
+        else:
+            ctx.violated('R1', cp, 'return ' + T.show(v)[:140], 'DimArray.copy() rebuilds the array from values, axes and attrs only: the per-instance indexing mode (_indexing, '
+                         '_indexing_broadcast) falls back to the current global option, so put(..., inplace=False) / a[idx] = v on the copy resolves the index differently from '
+                         'the read a[idx] on the original (copy.deepcopy(self), or hand _indexing= / _indexing_broadcast= on)', node=p.node)
     # same N-d boolean predicate on both sides
     g = ctx.fn(BASES + 'AbstractDimArray._getitem')
     evg = run(ctx, g, bind={'broadcast': T.CONST_NONE, 'broadcast_arrays': T.CONST_NONE}, mode='join')
